@@ -21,6 +21,9 @@ def run(tier, seed):
     from props import c02
     c02.grid(out, "chains", tier, ["--chains", "--stride", "1" if thorough else "3"], nworkers=12, groups_per_chunk=40)
     # links whose target does not exist (on disk and in memory): the queries, and remove / remove_all / move_p / symlink on the link
+    # "chmod and chown without follow act on the link itself and never on its target", on both backends: the permission grid of C11
+    # (one layout), each side's modes and owners held to the reference
+    c02.grid(out, "perm", tier, ["--perm", "2", "--stride", "5" if thorough else "13"], pairmode="ref")
     c02.grid(out, "dangling", tier, ["--dangling", "--stride", "1" if thorough else "2"], nworkers=12, groups_per_chunk=40)
     out.assumptions += ["the remaining Stdfs side of the same laws is decided by the backend comparison (C02)"]
     out.finish(dict(rule="all (link, target) position pairs over names {a,b} depth <= 3 that can coexist x target kind {file, dir, missing} x {absolute, relative} spelling, "
